@@ -261,6 +261,10 @@ class Ctx:
             self.drift += int(extra.get("drift", 0) or 0)
         self.note("validated " + (label or module), events=r["n"], episodes=episodes, rejected=len(r["bad"]),
                   s=res["s"], extra=json.dumps(extra)[:300])
+        if isinstance(extra, dict) and isinstance(extra.get("known"), dict):
+            self.extra.setdefault("known_finding_occurrences", {})
+            k = extra["known"]
+            self.extra["known_finding_occurrences"][k["sig"]] = self.extra["known_finding_occurrences"].get(k["sig"], 0) + int(k["n"])
         lines = None
         for b in r["bad"]:
             if lines is None:
@@ -305,7 +309,8 @@ class Ctx:
             else:
                 real.append(v)
         for kid, (k, n) in hits.items():
-            print("KNOWN-FINDING: property=%s %s: %s (%d occurrences)" % (self.pid, kid, k["what"], n))
+            total = self.extra.get("known_finding_occurrences", {}).get(k["signature"], n)
+            print("KNOWN-FINDING: property=%s %s: %s (%d occurrences in this run)" % (self.pid, kid, k["what"], total))
         rc = 0
         if real:
             rdir = os.path.join(OUTDIR, "replays")
